@@ -19,3 +19,5 @@ func TestC11(t *testing.T) { runProp(t, "C11", drawC11) }
 func TestC02(t *testing.T) { runProp(t, "C02", drawC02) }
 
 func TestC14(t *testing.T) { runProp(t, "C14", drawC14) }
+
+func TestC15(t *testing.T) { runProp(t, "C15", drawC15) }
